@@ -221,8 +221,11 @@ Section Sem.
        "cv_getatomappliedforcesrms"; "cv_getatomappliedforcesmaxid"; "cv_molid"; "cv_frame"; "cv_delete";
        "colvar_type"; "colvar_width"; "colvar_help"; "colvar_getconfig"; "colvar_getatomgroups"; "colvar_getvolmapids";
        "colvar_state"; "colvar_run_ave";
-       "bias_type"; "bias_getconfig"; "bias_help"; "bias_state"; "bias_savetostring"; "bias_bin"; "bias_bincount";
-       "bias_binnum"; "bias_local_sample_count"; "bias_share"; "bias_save"].
+       "bias_type"; "bias_getconfig"; "bias_help"; "bias_state"; "bias_savetostring";
+       "bias_save"].
+  (* the biases of this model are harmonic restraints: no grid, no replicas - these bodies can only report that *)
+  Definition grid_only (fn : string) : bool :=
+    existsb (String.eqb fn) ["bias_bin"; "bias_bincount"; "bias_binnum"; "bias_local_sample_count"; "bias_share"].
 
   Definition set_flags (st : sem) (n : string) (c : bool) (v : option bool) : sem :=
     match alookup n (sm_cv st) with
@@ -248,6 +251,7 @@ Section Sem.
     | Some r => (st, r)
     | None =>
       if inert fn then (st, QOk)
+      else if grid_only fn then (st, QErr)
       else if String.eqb fn "colvar_get" then
         (st, feature_query st ("c:" ++ obj) (nth 4 words "")
                (match alookup obj (sm_cv st) with Some cs => Some (cs_collect cs) | None => None end))
